@@ -31,14 +31,18 @@ PAIRS = [("et205", "et745"), ("et205", "es_v1"), ("es_v1", "es_v2"), ("et205tcp"
          ("et205mid", "et205"), ("dt3", "dt3_f7"), ("et205_7f", "et205"), ("et745tcp", "et745tcp_01"), ("dt3_f7", "et205")]
 
 
-def obj_spec(name: str, rnd: random.Random, prior: str) -> dict:
+def obj_spec(name: str, rnd: random.Random, prior: str, fill: str | None = None) -> dict:
     fam, tag, port, fmt, g1 = OBJECTS[name]
     serial = serial_for(tag) if fam != "ES" else "95048ESU000W0000"
     regs = device_regs(fam, serial, RATED.get(name, 10000))
     base = {"ET": [(35100, 125), (37000, 24), (36000, 125 if name in RATED else 45), (35301, 61), (39000, 22 if name in RATED else 0)], "DT": [(30100, 73), (30195, 15)]}.get(fam, [])
+    # register contents: random, or the extreme patterns (all ones = "no value" / NaN patterns, all zeros) - an object that
+    # remembers something from one inverter shows it on the other only when their contents differ in kind
+    fill = fill or rnd.choice(("random", "random", "ff", "zero", "mixed"))
     for first, count in base:
         for a in range(first, first + count):
-            regs[a] = rnd.randrange(65536)
+            regs[a] = {"random": rnd.randrange(65536), "ff": 0xFFFF, "zero": 0,
+                       "mixed": rnd.choice((0xFFFF, 0, 0x7FC0, 0x8000, rnd.randrange(65536)))}[fill]
     if fam == "ET":
         regs[35184] = rnd.choice([0, 1, 2])
     regs.update({47000: rnd.choice([0, 1, 2, 3]), 45356: rnd.randrange(100), 47510: rnd.randrange(10000), 40328: 50, 40336: 50,
@@ -283,6 +287,15 @@ def check(prop: str, tier: str, seed: int) -> int:
                 jobs.append({"pair": [a, b], "s1": [x, x2], "s2": s2, "priors": ["partial", "zeros"],
                              "shuffles": dshuffles(3, len(s2) + 1, quick, rnd),
                              "inv": [obj_spec(a, rnd, "partial"), obj_spec(b, rnd, "zeros")]})
+    # directed: two objects of one family on inverters whose contents differ in kind (no-value patterns vs ordinary values),
+    # the bulk reads in both orders
+    rrd = {"api": "read_runtime_data"}
+    for a, b in [("et205", "et745"), ("et745", "et205big"), ("et205tcp", "et745tcp"), ("dt3", "dt1"), ("es_v1", "es_v2")]:
+        for fa, fb in (("ff", "random"), ("random", "ff"), ("zero", "random"), ("mixed", "random")):
+            for s1, s2 in (([rrd], [rrd]), ([rrd, rrd], [rrd]), ([rrd], [rrd, rrd])):
+                jobs.append({"pair": [a, b], "s1": s1, "s2": s2, "priors": ["zeros", "zeros"],
+                             "shuffles": dshuffles(len(s1) + 1, len(s2) + 1, quick, rnd),
+                             "inv": [obj_spec(a, rnd, "zeros", fa), obj_spec(b, rnd, "zeros", fb)]})
     res = engine.parallel_map("harness.checks_shuffle", "run_shuffle", jobs, procs=16, chunk=2)
     cases, src, inter = judge_results(run, res)
     from . import checks_sim
